@@ -63,8 +63,14 @@ class Lib:
                 vis = rng.choice(['__published', '__published', 'public', 'protected', 'private'])
                 members = []
                 for m in range(rng.randrange(0, 4)):
-                    kind = rng.choice(['method', 'method', 'method', 'static', 'field', 'ctor', 'enum'])
+                    kind = rng.choice(['method', 'method', 'method', 'static', 'field', 'ctor', 'enum', 'nested'])
                     mid += 1
+                    if kind == 'nested':
+                        if vis not in ('__published', 'public'):
+                            continue
+                        members.append({'kind': 'nested', 'name': 'In%d_%d' % (k, mid), 'static': 'sfn%d_%d' % (k, mid), 'method': 'nm%d_%d' % (k, mid),
+                                        'ret': rng.choice(['int', 'double', 'bool'])})
+                        continue
                     if kind in ('method', 'static'):
                         members.append({'kind': kind, 'name': 'm%d_%d_%s' % (k, mid, rng.choice(['get', 'set_value', 'compute', 'doIt'])), 'ret': self.rtype(known),
                                         'params': self.params(known), 'const': kind == 'method' and rng.random() < 0.4,
@@ -129,6 +135,12 @@ class Lib:
                         out.append('  %s;' % m['decl'])
                     elif m['kind'] == 'ctor':
                         out.append('  %s%s;' % (c['name'], self.sig(m)))
+                    elif m['kind'] == 'nested':
+                        out.append('  class %s {' % m['name'])
+                        out.append('  __published:')
+                        out.append('    static %s %s(int a);' % (m['ret'], m['static']))
+                        out.append('    %s %s() const;' % (m['ret'], m['method']))
+                        out.append('  };')
                     else:
                         out.append('  enum %s { %s };' % (m['name'], ', '.join(m['values'])))
             out.append('};')
